@@ -182,7 +182,41 @@ def _pure_text_helper(ctx, n: ast.Name, call: ast.Call) -> bool:
     return True
 
 
+def _known_host_int(n: ast.Name) -> bool:
+    """The key is, at this use, a host int: a condition on the way tested type(key) is int / isinstance(key, int).
+    A number cannot name a host attribute or an entry of an implementation dictionary."""
+    from ..util import known_conditions
+    from .textparse import _int_narrowed
+
+    top = n
+    while getattr(top, "_parent", None) is not None and not isinstance(top, (ast.FunctionDef, ast.AsyncFunctionDef)):
+        top = top._parent
+    for t, pol in known_conditions(n, top):
+        if n.id in _int_narrowed(t, pol):
+            return True
+    # the later operands of the `and` that holds the type test
+    ch, pp = n, getattr(n, "_parent", None)
+    while pp is not None and not isinstance(pp, ast.stmt):
+        if isinstance(pp, ast.BoolOp) and isinstance(pp.op, ast.And):
+            for v in pp.values:
+                if v is ch or any(x is ch for x in ast.walk(v)):
+                    break
+                if n.id in _int_narrowed(v, True):
+                    return True
+        ch, pp = pp, getattr(pp, "_parent", None)
+    return False
+
+
 def _key_use(n: ast.Name, p: Optional[ast.AST], literal_lists: Set[str]) -> Tuple[bool, str]:
+    if isinstance(p, ast.Call) and isinstance(p.func, ast.Name) and p.func.id == "type" and len(p.args) == 1:
+        gp = getattr(p, "_parent", None)
+        if isinstance(gp, ast.Compare) and len(gp.ops) == 1 and isinstance(gp.ops[0], (ast.Is, ast.IsNot, ast.Eq, ast.NotEq)) and all(isinstance(o, ast.Name) and o.id in ("int", "float", "str", "bool") for o in [gp.left] + list(gp.comparators) if o is not p):
+            return True, "type-test"
+    if _known_host_int(n):
+        if isinstance(p, ast.Compare):
+            return True, "number-compare"
+        if isinstance(p, ast.Subscript) and p.slice is n:
+            return True, "sequence-index (the range is the subscript rule's obligation)"
     if isinstance(p, ast.Call):
         fn = p.func
         if n in p.args or any(k.value is n for k in p.keywords):
